@@ -28,6 +28,13 @@ def dispatch (op : String) (f : List Text) : String :=
     s!"{opt (Semver.calcLatestPatch cur avail)} {opt (Semver.calcLatestMinor cur avail)} {opt (Semver.calcLatestMajor cur avail)}"
   | "checker.pure", eco :: latest :: tagres :: cur :: versions => checkerPure eco latest tagres cur versions
   | "spec.diag", eco :: latest :: tagres :: cur :: versions => specDiag eco latest tagres cur versions
+  | "cfg.parse", [t] =>
+    match Json.parse t with
+    | none => "notjson"
+    | some j =>
+      match ConfigM.parseConfig j with
+      | none => "err"
+      | some c => s!"ok disabled=[{",".intercalate (c.disabled.map String.ofList)}] ip={tf c.ignorePrerelease} ri={c.refreshInterval}"
   | "ca.run", f => caRun f
   | "http.fetch", f => httpFetch f
   | "http.tagsha", f => httpTagSha f
